@@ -26,7 +26,8 @@ func runC10(a *A) {
 		for _, st := range storesToField(add, la) {
 			n++
 			v := TermOf(st.Val, nil).String()
-			// an End with term Add(v, recv.timeout) must be stored in the same function
+			// an End with term Add(v, recv.timeout) must be set together with this store: the End-setting
+			// instruction dominates the store or is dominated by it
 			found := false
 			allInstrs(add, func(in ssa.Instruction) {
 				var cand *Term
@@ -42,7 +43,7 @@ func runC10(a *A) {
 						cand = TermOf(x.Call.Args[1], nil)
 					}
 				}
-				if cand != nil && isAddOf(cand, v, "window.SessionWindow", "timeout") {
+				if cand != nil && isAddOf(cand, v, "window.SessionWindow", "timeout") && (dominatesInstr(in, st) || dominatesInstr(st, in)) {
 					found = true
 				}
 			})
